@@ -1,6 +1,7 @@
 """Extracted/Limiter.lean — rate-limit decision logic of a tracepoint action (C04, C10), regenerated from
 src/deep/api/tracepoint/trigger.py and tracepoint_config.py."""
 import ast
+import sys
 from pylean import (Translator, Untranslatable, load, find_def, update_function, same_shape, header,
                     lean_str, module_constants)
 
@@ -54,10 +55,19 @@ def generate():
     gi = find_def(trig, 'LocationAction.__get_int')
     if not same_shape(gi, GET_INT_TEMPLATE):
         raise Untranslatable('LocationAction.__get_int changed shape')
+    # CPython (>= 3.11) refuses integer TEXT with more decimal digits than sys.get_int_max_str_digits() (ValueError;
+    # process-configurable, 0 = no limit; every digit counts, leading zeros too; sign, spaces, underscores do not)
+    parts.append('/-- `sys.get_int_max_str_digits()` of the interpreter the extraction ran on (0 = no limit) -/\n'
+                 f'def maxStrDigits : Nat := {sys.get_int_max_str_digits()}\n')
+    parts.append('/-- decimal digits in a text (ASCII) -/\n'
+                 'def digitCount (s : String) : Nat := (s.toList.filter Char.isDigit).length\n')
+    parts.append('/-- `int(s)` for ASCII text with the digit limit: `none` = ValueError -/\n'
+                 'def parseIntL (s : String) : Option Int :=\n'
+                 '  if maxStrDigits != 0 && decide (digitCount s > maxStrDigits) then none else Py.parseInt s\n')
     parts.append('/-- `int(config.get(name, default))` with `ValueError` falling back to the default; the config\n'
                  '    value is text (tracepoint args are `map<string,string>`), `none` = key absent. -/\n'
                  'def getInt (v : Option String) (d : Int) : Int :=\n'
-                 '  match v with\n  | none => d\n  | some s => (Py.parseInt s).getD d\n')
+                 '  match v with\n  | none => d\n  | some s => (parseIntL s).getD d\n')
 
     # fire_count / fire_period properties: which key, which default
     for prop, lean in (('fire_count', 'fireCountOf'), ('fire_period', 'firePeriodOf')):
